@@ -238,178 +238,204 @@ func (x *Ctx) decimalPointAccounting(r *core.Result, g, h *core.RuleStat) {
 	}
 	digits := lts.Range('0', '9')
 	// ---- R04g
-	g.Instances++
-	// X: what the decimal point is set from — stores `recv.F = V` where V is not F's own value adjusted by a constant
-	type xform struct {
-		field  map[int]bool    // fields of recv loaded
-		phis   map[*ssa.Phi]bool // loop-carried locals
-		dpFld  int
-		stores int
-	}
-	X := xform{field: map[int]bool{}, phis: map[*ssa.Phi]bool{}, dpFld: -1}
-	var parse func(v ssa.Value) bool
-	parse = func(v ssa.Value) bool {
-		switch t := v.(type) {
-		case *ssa.BinOp:
-			if t.Op == token.ADD {
-				return parse(t.X) && parse(t.Y)
-			}
-		case *ssa.UnOp:
-			if t.Op == token.MUL {
-				if fa, ok := t.X.(*ssa.FieldAddr); ok && unspill(fa.X) == ssa.Value(recv) {
-					X.field[fa.Field] = true
-					return true
+	func() {
+		g.Instances++
+		// X: what the decimal point is set from — stores `recv.F = V` where V is not F's own value adjusted by a constant
+		type xform struct {
+			field  map[int]bool      // fields of recv loaded
+			phis   map[*ssa.Phi]bool // loop-carried locals
+			dpFld  int
+			stores int
+		}
+		X := xform{field: map[int]bool{}, phis: map[*ssa.Phi]bool{}, dpFld: -1}
+		var parse func(v ssa.Value) bool
+		parse = func(v ssa.Value) bool {
+			switch t := v.(type) {
+			case *ssa.BinOp:
+				if t.Op == token.ADD {
+					return parse(t.X) && parse(t.Y)
 				}
-			}
-		case *ssa.Phi:
-			X.phis[t] = true
-			return true
-		}
-		return false
-	}
-	expHead := loops[1].head
-	for _, b := range fn.Blocks {
-		if expHead.Dominates(b) {
-			continue // the exponent's own adjustment of dp comes later
-		}
-		for _, ins := range b.Instrs {
-			sto, ok := ins.(*ssa.Store)
-			if !ok {
-				continue
-			}
-			fa, ok := sto.Addr.(*ssa.FieldAddr)
-			if !ok || unspill(fa.X) != ssa.Value(recv) || !isIntKind(sto.Val.Type()) {
-				continue
-			}
-			// candidate: an integer field assigned from other counters (not from itself)
-			selfAdj := false
-			if bo, ok := sto.Val.(*ssa.BinOp); ok {
-				if ld, ok := bo.X.(*ssa.UnOp); ok && ld.Op == token.MUL {
-					if fa2, ok := ld.X.(*ssa.FieldAddr); ok && fa2.Field == fa.Field && unspill(fa2.X) == ssa.Value(recv) {
-						selfAdj = true
+			case *ssa.UnOp:
+				if t.Op == token.MUL {
+					if fa, ok := t.X.(*ssa.FieldAddr); ok && unspill(fa.X) == ssa.Value(recv) {
+						X.field[fa.Field] = true
+						return true
 					}
 				}
+			case *ssa.Phi:
+				X.phis[t] = true
+				return true
 			}
-			if selfAdj {
+			return false
+		}
+		expHead := loops[1].head
+		// stores `recv.F = V` before the exponent loop where V is neither a constant nor F's own value adjusted
+		type cstore struct {
+			sto    *ssa.Store
+			fld    int
+			fields map[int]bool
+			phis   map[*ssa.Phi]bool
+			ok     bool
+		}
+		var cands []cstore
+		for _, b := range fn.Blocks {
+			if expHead.Dominates(b) {
+				continue // the exponent's own adjustment of dp comes later
+			}
+			for _, ins := range b.Instrs {
+				sto, ok := ins.(*ssa.Store)
+				if !ok {
+					continue
+				}
+				fa, ok := sto.Addr.(*ssa.FieldAddr)
+				if !ok || unspill(fa.X) != ssa.Value(recv) || !isIntKind(sto.Val.Type()) {
+					continue
+				}
+				selfAdj := false
+				if bo, ok := sto.Val.(*ssa.BinOp); ok {
+					if ld, ok := bo.X.(*ssa.UnOp); ok && ld.Op == token.MUL {
+						if fa2, ok := ld.X.(*ssa.FieldAddr); ok && fa2.Field == fa.Field && unspill(fa2.X) == ssa.Value(recv) {
+							if _, isK := constBig(bo.Y); isK {
+								selfAdj = true
+							}
+						}
+					}
+				}
+				if _, isC := sto.Val.(*ssa.Const); isC || selfAdj {
+					continue
+				}
+				X.field, X.phis = map[int]bool{}, map[*ssa.Phi]bool{}
+				okp := parse(sto.Val)
+				cands = append(cands, cstore{sto, fa.Field, X.field, X.phis, okp})
+			}
+		}
+		// the decimal point: the field that some store sets from a sum of counters
+		X.dpFld = -1
+		for _, c := range cands {
+			if c.ok && X.dpFld < 0 {
+				X.dpFld, X.field, X.phis = c.fld, c.fields, c.phis
+			}
+		}
+		for _, c := range cands {
+			if c.fld != X.dpFld {
 				continue
 			}
-			if _, isC := sto.Val.(*ssa.Const); isC {
+			X.stores++
+			same := c.ok && len(c.fields) == len(X.field) && len(c.phis) == len(X.phis)
+			for f := range c.fields {
+				if !X.field[f] {
+					same = false
+				}
+			}
+			for ph := range c.phis {
+				if !X.phis[ph] {
+					same = false
+				}
+			}
+			if !same {
+				r.Fail(g, "decimal.set:point-expression", w.Pos(c.sto.Pos()), "the decimal point is set here from an expression that is not the same sum of digit counters it is set from elsewhere: the two places would count different digits")
+				return
+			}
+		}
+		if X.stores == 0 {
+			r.Undecided(g, "decimal.set:point", w.Pos(fn.Pos()), "no assignment of the decimal point from the digit counters found")
+			return
+		}
+		okG := true
+		nTrips := 0
+		for _, t := range x.trips(fn, loops[0], st) {
+			if t.bytes.Empty() || t.bytes.And(digits) != t.bytes {
+				continue // not a digit trip
+			}
+			// after the '.': some boolean known true on the way whose meaning is "the point has been seen" — any boolean
+			// loop variable tested true exempts the trip only if it is the one set on the '.' trip; approximated by:
+			// a loop-carried boolean phi tested on the way
+			afterDot := false
+			for v, truth := range t.bools {
+				if ph, ok := v.(*ssa.Phi); ok && ph.Block() == loops[0].head && truth {
+					afterDot = true
+				}
+			}
+			if afterDot {
 				continue
 			}
-			save := X
-			X.field, X.phis = map[int]bool{}, map[*ssa.Phi]bool{}
-			for k, v := range save.field {
-				X.field[k] = v
+			leadingZero := false
+			for k, v := range t.ints {
+				if v && k == fmt.Sprintf("field:%d==0", firstKey(X.field)) && t.bytes == lts.Of('0') {
+					leadingZero = true
+				}
 			}
-			for k, v := range save.phis {
-				X.phis[k] = v
+			if leadingZero {
+				continue
 			}
-			if parse(sto.Val) {
-				X.dpFld = fa.Field
-				X.stores++
-			} else {
-				X = save
-			}
-		}
-	}
-	if X.stores == 0 {
-		r.Undecided(g, "decimal.set:point", w.Pos(fn.Pos()), "no assignment of the decimal point from the digit counters found")
-		return
-	}
-	okG := true
-	nTrips := 0
-	for _, t := range x.trips(fn, loops[0], st) {
-		if t.bytes.Empty() || t.bytes.And(digits) != t.bytes {
-			continue // not a digit trip
-		}
-		// after the '.': some boolean known true on the way whose meaning is "the point has been seen" — any boolean
-		// loop variable tested true exempts the trip only if it is the one set on the '.' trip; approximated by:
-		// a loop-carried boolean phi tested on the way
-		afterDot := false
-		for v, truth := range t.bools {
-			if ph, ok := v.(*ssa.Phi); ok && ph.Block() == loops[0].head && truth {
-				afterDot = true
-			}
-		}
-		if afterDot {
-			continue
-		}
-		leadingZero := false
-		for k, v := range t.ints {
-			if v && k == fmt.Sprintf("field:%d==0", firstKey(X.field)) && t.bytes == lts.Of('0') {
-				leadingZero = true
-			}
-		}
-		if leadingZero {
-			continue
-		}
-		nTrips++
-		var delta int64
-		known := true
-		for f := range X.field {
-			// stores recv.f = recv.f + k on the trip
-			for _, b := range t.blocks[:len(t.blocks)-1] {
-				for _, ins := range b.Instrs {
-					sto, ok := ins.(*ssa.Store)
-					if !ok {
-						continue
-					}
-					fa, ok := sto.Addr.(*ssa.FieldAddr)
-					if !ok || fa.Field != f || unspill(fa.X) != ssa.Value(recv) {
-						continue
-					}
-					bo, ok := sto.Val.(*ssa.BinOp)
-					k, okk := constBig(boY(bo))
-					if !ok || !okk || (bo.Op != token.ADD && bo.Op != token.SUB) {
-						known = false
-						continue
-					}
-					if bo.Op == token.ADD {
-						delta += k.Int64()
-					} else {
-						delta -= k.Int64()
+			nTrips++
+			var delta int64
+			known := true
+			for f := range X.field {
+				// stores recv.f = recv.f + k on the trip
+				for _, b := range t.blocks[:len(t.blocks)-1] {
+					for _, ins := range b.Instrs {
+						sto, ok := ins.(*ssa.Store)
+						if !ok {
+							continue
+						}
+						fa, ok := sto.Addr.(*ssa.FieldAddr)
+						if !ok || fa.Field != f || unspill(fa.X) != ssa.Value(recv) {
+							continue
+						}
+						bo, ok := sto.Val.(*ssa.BinOp)
+						k, okk := constBig(boY(bo))
+						if !ok || !okk || (bo.Op != token.ADD && bo.Op != token.SUB) {
+							known = false
+							continue
+						}
+						if bo.Op == token.ADD {
+							delta += k.Int64()
+						} else {
+							delta -= k.Int64()
+						}
 					}
 				}
 			}
-		}
-		for ph := range X.phis {
-			if ph.Block() != loops[0].head {
-				known = false
+			for ph := range X.phis {
+				if ph.Block() != loops[0].head {
+					known = false
+					continue
+				}
+				d, ok := deltaOnTrip(ph, t)
+				if !ok {
+					known = false
+				}
+				delta += d
+			}
+			if !known {
+				r.Undecided(g, "decimal.set:trip", w.Pos(t.blocks[len(t.blocks)-2].Instrs[0].Pos()), "the effect of a digit trip on the decimal point counters is not a constant")
+				okG = false
 				continue
 			}
-			d, ok := deltaOnTrip(ph, t)
-			if !ok {
-				known = false
+			if delta != 1 {
+				okG = false
+				pos := w.Pos(fn.Pos())
+				for _, b := range t.blocks {
+					for _, ins := range b.Instrs {
+						if ins.Pos().IsValid() {
+							pos = w.Pos(ins.Pos())
+						}
+					}
+				}
+				r.Fail(g, "decimal.set:integer-digit-not-counted", pos, fmt.Sprintf("a digit of the integer part (byte in %s) passes without moving the decimal point (the counters it is set from change by %d, not 1): an integer longer than the digit buffer is scaled by the wrong power of ten", t.bytes, delta))
+				break
 			}
-			delta += d
 		}
-		if !known {
-			r.Undecided(g, "decimal.set:trip", w.Pos(t.blocks[len(t.blocks)-2].Instrs[0].Pos()), "the effect of a digit trip on the decimal point counters is not a constant")
+		if nTrips == 0 {
+			r.Undecided(g, "decimal.set:trips", w.Pos(fn.Pos()), "no digit trip of the integer part found")
 			okG = false
-			continue
 		}
-		if delta != 1 {
-			okG = false
-			pos := w.Pos(fn.Pos())
-			for _, b := range t.blocks {
-				for _, ins := range b.Instrs {
-					if ins.Pos().IsValid() {
-						pos = w.Pos(ins.Pos())
-					}
-				}
-			}
-			r.Fail(g, "decimal.set:integer-digit-not-counted", pos, fmt.Sprintf("a digit of the integer part (byte in %s) passes without moving the decimal point (the counters it is set from change by %d, not 1): an integer longer than the digit buffer is scaled by the wrong power of ten", t.bytes, delta))
-			break
+		if okG {
+			g.OK(nTrips)
+			g.Sample(fmt.Sprintf("decimal.set: %d kinds of integer-digit trip, each moves the decimal point by one (stored or not)", nTrips))
 		}
-	}
-	if nTrips == 0 {
-		r.Undecided(g, "decimal.set:trips", w.Pos(fn.Pos()), "no digit trip of the integer part found")
-		okG = false
-	}
-	if okG {
-		g.OK(nTrips)
-		g.Sample(fmt.Sprintf("decimal.set: %d kinds of integer-digit trip, each moves the decimal point by one (stored or not)", nTrips))
-	}
+	}()
 	// ---- R04h: saturation of the exponent accumulators (decimal.set and readFloat)
 	for _, name := range []string{"fp.decimal.set", "fp.readFloat"} {
 		f2 := x.Func(name)
